@@ -558,8 +558,10 @@ Record replay := {
   rp_stagn : list nat;             (* keeper's stagnation counter after each call *)
   rp_fault : option (nat * nat);   (* iteration callback raises at call k: (k, exception index) *)
   rp_joblib_draws : list nat;      (* os.urandom(16) calls made by joblib, per dispatcher call *)
-  rp_iter_calls : list nat         (* random search: the add_to_history call made by iteration n (0 = none:
+  rp_iter_calls : list nat;        (* random search: the add_to_history call made by iteration n (0 = none:
                                       the mutation produced nothing, nothing was evaluated or recorded) *)
+  rp_offsets : list Z              (* per identifier of rp_created: the offset at which its 16 bytes start in
+                                      the stream of random.seed(seed); -1 = not found there *)
 }.
 
 Record case := {
@@ -638,6 +640,14 @@ Definition replay_run (rp : replay) (x : export) : outcome :=
                 {| r_stream := replay_stream rp; r_ids := Mocked |} (replay_oracles rp x)
                 (S (S (length (x_gens x))))).
 
+(* the observed identifiers are windows of the seeded stream, created in the recorded order and
+   pairwise disjoint (16 outputs each) - the observable side of uid_source_single_stream *)
+Fixpoint windows_ok (l : list Z) : bool :=
+  match l with
+  | [] => true
+  | a :: t => Z.leb 0%Z a && match t with [] => true | b :: _ => Z.leb (a + 16)%Z b end && windows_ok t
+  end.
+
 Definition fit_values (f : E.fit) : option (list Q) :=
   match f with E.Null => None | E.FSingle vs => Some vs | E.FMulti vs => Some vs end.
 
@@ -649,8 +659,9 @@ Definition outcome_code (fl : flow (list graph)) : nat :=
 
 (* model = implementation: the loop replayed with the recorded answers of the oracles gives the
    recorded generations (number, label, members in order, their fitness), the recorded archive
-   history, the recorded outcome, as many identifiers as were recorded, no identifier twice in
-   an evaluated population, and the number of identifiers joblib drew per dispatcher call *)
+   history, the recorded outcome, the recorded identifiers in the recorded creation order (each a
+   window of the seeded stream, pairwise disjoint), no identifier twice in an evaluated
+   population, and the number of identifiers joblib drew per dispatcher call *)
 Definition agree_replay (rp : replay) (x : export) : bool :=
   let out := replay_run rp x in
   let c := out_core out in
@@ -663,6 +674,7 @@ Definition agree_replay (rp : replay) (x : export) : bool :=
   && E.list_eqb nats_eqb (map (map E.uid) (c_snaps c)) (x_snaps x)
   && Nat.eqb (outcome_code (out_result out)) (x_outcome x)
   && nats_eqb (c_created c) (rp_created rp)
+  && windows_ok (rp_offsets rp) && Nat.eqb (length (rp_offsets rp)) (length (rp_created rp))
   && c_clean c
   && (negb (in_parallel_mode (kpart (replay_config rp)))
       || forallb (Nat.eqb (joblib_uuid_draws (rp_n_jobs rp))) (rp_joblib_draws rp))
